@@ -13,7 +13,10 @@ CONSTANT MaxPair
 LinkEdits == {"name", "mat_path", "prod_path", "mat_digest", "prod_digest", "mat_alg", "prod_alg", "mat_add",
               "prod_remove", "command_arg", "command_split", "command_add", "stdout", "stdout_trailing_newline",
               "stderr", "retval", "byp_extra_add", "byp_extra_change", "env_to_null", "env_to_empty", "env_add",
-              "env_change", "env_key"}
+              "env_change", "env_key",
+              \* structure-level near collisions: two members folded into one whose NAME spells the
+              \* boundary, two array elements folded into one whose content spells the boundary
+              "env_fold", "byp_fold", "command_fold", "paths_fold"}
 LayoutEdits == {"readme", "expires_plus1", "expires_minus1", "step_name", "step_threshold", "step_threshold_zero",
                 "pubkeys_add", "pubkeys_remove", "pubkeys_swap", "step_command", "rule_keyword", "rule_pattern",
                 "rule_add", "rule_remove", "rule_swap", "match_src", "match_dst", "match_drop_src", "match_with",
